@@ -331,6 +331,25 @@ theorem more_nodes_isolated (items : List (Item Pt)) (g : GroupID) :
    fun _ => demux_noninterference_pure _ items g, fun _ _ _ => demux_noninterference_pure _ items g,
    fun _ _ => demux_noninterference_pure _ items g⟩
 
+/-- the BATCH side of receivers (behind a window, on the batch edge's own group ids): sample, stateCount, where with
+`count()` (state kept across batches), changeDetect, derivative — isolated on every stream of buffered batches. The
+InfluxQL batch side (`iqlNodeB`, shares the createFn cache) is tied by correspondence; its isolation follows from
+`cache_keyed_by_kind` in the same way as `iql_isolated` but is not proved separately. -/
+theorem batch_side_nodes_isolated (items : List (Item Batch)) (g : GroupID) :
+    (∀ n, (runNode (sampleNodeB n) () items).filter (fun o => o.1 == g) = runNode (sampleNodeB n) () (items.filter (fun it => it.group == g))) ∧
+    (∀ t, (runNode (stateCountNodeB t) () items).filter (fun o => o.1 == g) = runNode (stateCountNodeB t) () (items.filter (fun it => it.group == g))) ∧
+    ((runNode whereCountNodeB () items).filter (fun o => o.1 == g) = runNode whereCountNodeB () (items.filter (fun it => it.group == g))) ∧
+    ((runNode changeDetectNodeB () items).filter (fun o => o.1 == g) = runNode changeDetectNodeB () (items.filter (fun it => it.group == g))) ∧
+    ((runNode derivativeNodeB () items).filter (fun o => o.1 == g) = runNode derivativeNodeB () (items.filter (fun it => it.group == g))) :=
+  ⟨fun _ => demux_noninterference_pure _ items g, fun _ => demux_noninterference_pure _ items g,
+   demux_noninterference_pure _ items g, demux_noninterference_pure _ items g, demux_noninterference_pure _ items g⟩
+
+/-- the window's batches, as a node of its own (first stage of `|window()…|NODE` pipelines) -/
+theorem window_batches_isolated (p e : Nat) (f : Bool) (items : List (Item Pt)) (g : GroupID) :
+    (runNode (windowCountNodeB p e f) () items).filter (fun o => o.1 == g) =
+      runNode (windowCountNodeB p e f) () (items.filter (fun it => it.group == g)) :=
+  demux_noninterference_pure _ items g
+
 /-- the recording receiver of the harness (the tie of `Demux.step` on all message types) is isolated too: on
 streams with barriers, buffered/unbuffered batches and deletions -/
 theorem recording_node_isolated (items : List (Item Nat)) (g : GroupID) :
